@@ -8,6 +8,8 @@
 (*  HDR / BLK / END   the container of a stream written by the CURRENT     *)
 (*         encoder, parsed by the independent parser, next to what the     *)
 (*         encoder itself logged through the hooks                         *)
+(*  HASH   bits, n, got, want   the 32/64-bit block checksum of an input   *)
+(*         computed by v2/hash and by the independent harness/xxref        *)
 (***************************************************************************)
 EXTENDS Integers, Sequences, TLC, Json, IOUtils
 
@@ -48,6 +50,8 @@ Bad(e) == CASE e.ev = "GOLDEN" -> IF e.got = e.want THEN "none" ELSE "C10_golden
             [] e.ev = "HDR"    -> IF HdrOk(e) THEN "none" ELSE "C10_header_layout"
             [] e.ev = "BLK"    -> IF BlkOk(e) THEN "none" ELSE "C10_block_frame_layout"
             [] e.ev = "END"    -> IF EndOk(e) THEN "none" ELSE "C10_end_marker"
+            \* the block checksum functions are part of the format: v2/hash vs the independent implementation
+            [] e.ev = "HASH"   -> IF e.got = e.want THEN "none" ELSE "C10_checksum_function"
             [] OTHER           -> "none"
 
 Next == /\ l <= Len(Trace)
